@@ -60,7 +60,7 @@ def run(seed=0, tier='quick', hints=None, broken=False):
     viol, evals, seen = [], 0, set()
     for _ in range(n):
         shape = S.random_shape(rng)
-        case = {'shape': list(shape), 'seed': rng.randint(0, 10 ** 6), 'channels': rng.choice([None, None, 1, 3])}
+        case = {'shape': list(shape), 'seed': R.pick_seed(rng), 'channels': rng.choice([None, None, 1, 3])}
         cfgs = S.lattice_configs(rng, shape) + S.dropout_configs(rng, shape)
         for c in cfgs:
             check(c['cls'], [c], case, viol)
